@@ -111,7 +111,7 @@ class Patched:
             pass
 
 
-HOST_FORMS = ["10.0.0.5", "192.168.1.255", "fe80::1", "fe80::1%3", "fe80::2%eth0", "::1", "2001:db8::7",
+HOST_FORMS = ["10.0.0.5", "192.168.1.255", "fe80::1", "fe80::1%3", "fe80::2%eth0", "::1", "2001:db8::7", "fd00::1:2%2", "ff02::fb%5",
               "kitchen", "attic", "kitchen.local", "garage.local.", "x.local", "host.example.com", "sub.host.example.org.",
               "local", "kitchen.localx", "1234", "a.b.local", "kitchen.LOCAL"]
 
@@ -229,7 +229,7 @@ def run(ck: Check):
             for m in MD:
                 for o in OSX:
                     cases.append(([h], [m], [o]))
-        forms2 = HOST_FORMS if thorough else ["10.0.0.5", "fe80::1%3", "kitchen", "garage.local.", "host.example.com", "attic"]
+        forms2 = HOST_FORMS if thorough else ["10.0.0.5", "fe80::1%3", "fd00::1:2%2", "kitchen", "garage.local.", "host.example.com", "attic"]
         for h1, h2 in itertools.product(forms2, forms2):
             if h1 == h2:
                 continue
